@@ -439,6 +439,308 @@ fn statements(out: &mut Buf, rng: &mut Rng) {
     }
 }
 
+
+// ---------------------------------------------------------------- Json and Base64 fields
+#[derive(Clone, Debug, PartialEq)]
+enum Jv { Null, Bool(bool), Int(i64), Str(String), Arr(Vec<Jv>), Obj(Vec<(String, Jv)>) }
+impl Jv {
+    fn coq(&self) -> String {
+        match self {
+            Jv::Null => "JNull".into(), Jv::Bool(b) => format!("(JBool {})", gb(*b)), Jv::Int(z) => format!("(JInt {})", gz(*z)),
+            Jv::Str(s) => format!("(JString {})", gstr(s)),
+            Jv::Arr(l) => format!("(JArray {})", glist(&l.iter().map(|x| x.coq()).collect::<Vec<_>>())),
+            Jv::Obj(l) => format!("(JObject {})", glist(&l.iter().map(|(k, v)| format!("({}, {})", gstr(k), v.coq())).collect::<Vec<_>>())),
+        }
+    }
+    /// JSON text with the members in the given order and some whitespace
+    fn text(&self, rng: &mut Rng) -> String {
+        let sp = |rng: &mut Rng| if rng.chance(1, 3) { " " } else { "" };
+        match self {
+            Jv::Null => "null".into(), Jv::Bool(b) => b.to_string(), Jv::Int(z) => z.to_string(),
+            Jv::Str(s) => format!("\"{}\"", json_esc(s)),
+            Jv::Arr(l) => { let items: Vec<String> = l.iter().map(|x| x.text(rng)).collect(); format!("[{}{}]", sp(rng), items.join(&format!("{},{}", sp(rng), sp(rng)))) }
+            Jv::Obj(l) => { let items: Vec<String> = l.iter().map(|(k, v)| format!("\"{}\"{}:{}{}", json_esc(k), sp(rng), sp(rng), v.text(rng))).collect(); format!("{{{}{}}}", sp(rng), items.join(&format!("{},", sp(rng)))) }
+        }
+    }
+    fn canon(&self) -> Jv {
+        match self {
+            Jv::Arr(l) => Jv::Arr(l.iter().map(|x| x.canon()).collect()),
+            Jv::Obj(l) => { let mut m: Vec<(String, Jv)> = l.iter().map(|(k, v)| (k.clone(), v.canon())).collect(); m.sort_by(|a, b| a.0.chars().map(|c| c as u32).collect::<Vec<_>>().cmp(&b.0.chars().map(|c| c as u32).collect::<Vec<_>>())); Jv::Obj(m) }
+            x => x.clone(),
+        }
+    }
+    fn canon_text(&self) -> String { let mut r = Rng(1); let c = self.canon(); c.text_min(&mut r) }
+    fn text_min(&self, _r: &mut Rng) -> String {
+        match self {
+            Jv::Null => "null".into(), Jv::Bool(b) => b.to_string(), Jv::Int(z) => z.to_string(), Jv::Str(s) => format!("\"{}\"", json_esc(s)),
+            Jv::Arr(l) => format!("[{}]", l.iter().map(|x| x.text_min(_r)).collect::<Vec<_>>().join(",")),
+            Jv::Obj(l) => format!("{{{}}}", l.iter().map(|(k, v)| format!("\"{}\":{}", json_esc(k), v.text_min(_r))).collect::<Vec<_>>().join(",")),
+        }
+    }
+}
+/// what the engine returned, in the order it returned it
+fn enc_serde(v: &serde_json::Value, o: &mut Vec<i64>) {
+    match v {
+        serde_json::Value::Null => o.push(0),
+        serde_json::Value::Bool(b) => { o.push(1); o.push(*b as i64) }
+        serde_json::Value::Number(n) => match n.as_i64() { Some(i) => { o.push(2); o.push(i) } None => { o.push(-3); } },
+        serde_json::Value::String(s) => { o.push(4); enc_str(s, o) }
+        serde_json::Value::Array(a) => { o.push(6); o.push(a.len() as i64); for x in a { enc_serde(x, o) } }
+        serde_json::Value::Object(m) => { o.push(7); o.push(m.len() as i64); for (k, x) in m { enc_str(k, o); enc_serde(x, o) } }
+    }
+}
+fn gen_jv(rng: &mut Rng, depth: usize) -> Jv {
+    let keys = ["a", "b", "k", "z", "é", "a b", "\"q\"", "", "A", "id", "\\", "null"];
+    match rng.below(if depth >= 3 { 5 } else { 9 }) {
+        0 => Jv::Null,
+        1 => Jv::Bool(rng.chance(1, 2)),
+        2 => Jv::Int(match rng.below(6) { 0 => i64::MAX, 1 => i64::MIN, 2 => 9007199254740993, _ => rng.range(-5, 50) }),
+        3 | 4 => Jv::Str(gen_string(rng).chars().take(8).collect()),
+        5 | 6 => { let n = rng.below(4) as usize; Jv::Arr((0..n).map(|_| gen_jv(rng, depth + 1)).collect()) }
+        _ => { let n = rng.below(4) as usize; let mut ks: Vec<&str> = vec![]; while ks.len() < n { let k = *rng.pick(&keys); if !ks.contains(&k) { ks.push(k); } }
+               Jv::Obj(ks.iter().map(|k| (k.to_string(), gen_jv(rng, depth + 1))).collect()) }
+    }
+}
+/// a stored value related to v: an object that shares keys with it (what a merge would mix up)
+fn gen_prev(rng: &mut Rng, v: &Jv) -> Jv {
+    match v {
+        Jv::Obj(l) if rng.chance(3, 4) => {
+            let mut m: Vec<(String, Jv)> = vec![];
+            for (k, _) in l { if rng.chance(2, 3) { m.push((k.clone(), gen_jv(rng, 2))); } }
+            for k in ["old", "z", "k"] { if !m.iter().any(|(x, _)| x == k) && rng.chance(1, 2) { m.push((k.to_string(), gen_jv(rng, 2))); } }
+            Jv::Obj(m)
+        }
+        _ => gen_jv(rng, 1),
+    }
+}
+const JMODEL: &str = "{ J { s: String, jp: Json, j: Json nullable, jd: Json default \"{\\\"d\\\":[1]}\", o: Integer default 7, b: Base64 nullable, bp: Base64, bd: Base64 default \"AAEC\" } }";
+fn new_jworld() -> World {
+    let mut dm = DataModel::new();
+    dm.update(JMODEL).unwrap();
+    let conn = Connection::open_in_memory().unwrap();
+    prepare_connection(&conn).unwrap();
+    let w = World { dm, conn, s_short: String::new() };
+    for (k, j) in ["{\"a\":1}", "[1,2]", "null", "\"x\"", "{\"a\":{\"b\":null}}"].iter().enumerate() {
+        let mut p = Parameters::new(); p.add("j", j.to_string()).unwrap(); p.add("j2", j.to_string()).unwrap(); p.add("s", format!("row{}", k)).unwrap();
+        mutate(&w, "mutate { J { s: $s jp: $j2 j: $j bp: \"AAEC\" b: \"\" } }", p).unwrap();
+    }
+    w
+}
+fn jquery(w: &World, text: &str, p: Parameters) -> Result<serde_json::Value, String> { query(w, &w.dm, text, p).map(|s| serde_json::from_str(&s).unwrap_or(json!(null))) }
+
+/// set `field` (on creation or over an existing value) and observe
+fn field_case(w: &World, rng: &mut Rng, field: &str, upd: bool, init: Option<String>, assign: String, wp: Parameters) -> (i64, Option<serde_json::Value>, i64, String, Vec<u8>) {
+    let fshort = w.dm.get_entity("J").unwrap().get_field(field).unwrap().short_name.clone();
+    let base = |extra: &str| format!("mutate {{ J {{ s: \"t\" jp: \"0\" bp: \"AA\" {} }} }}", extra);
+    let _ = rng;
+    let (status, id, frame, note);
+    if upd {
+        // jp / bp are given at creation: when they are the field under test the initial value replaces them
+        let create = match (&init, field) {
+            (Some(i), "jp") => format!("mutate {{ J {{ s: \"t\" jp: {} bp: \"AA\" }} }}", i),
+            (Some(i), "bp") => format!("mutate {{ J {{ s: \"t\" jp: \"0\" bp: {} }} }}", i),
+            (Some(i), f) => base(&format!("{}: {}", f, i)),
+            (None, _) => base(""),
+        };
+        let rid = mutate(w, &create, Parameters::new()).unwrap();
+        let before = snapshot(w);
+        let mut wp = wp; wp.add("id", uid_encode(&rid)).unwrap();
+        match mutate(w, &format!("mutate {{ J {{ id: $id {}: {} }} }}", field, assign), wp) {
+            Err(e) => return (if e.starts_with("parse") { 1 } else { 2 }, None, 0, e, rid.to_vec()),
+            Ok(_) => {}
+        }
+        let after = snapshot(w);
+        let mut ok = before.len() == after.len();
+        if ok { for (b, a) in before.iter().zip(after.iter()) {
+            if b.1 != rid.to_vec() { if b != a { ok = false; } }
+            else {
+                if b.0 != a.0 || b.3 != a.3 { ok = false; }
+                let jb: serde_json::Value = serde_json::from_str(b.2.as_ref().unwrap()).unwrap();
+                let ja: serde_json::Value = serde_json::from_str(a.2.as_ref().unwrap()).unwrap();
+                for (k, v) in jb.as_object().unwrap() { if *k != fshort && ja.get(k) != Some(v) { ok = false; } }
+                for (k, _) in ja.as_object().unwrap() { if *k != fshort && jb.get(k).is_none() { ok = false; } }
+            }
+        } }
+        status = 0; id = rid; frame = ok as i64; note = String::new();
+    } else {
+        let before = snapshot(w);
+        let create = match field { "jp" => format!("mutate {{ J {{ s: \"t\" jp: {} bp: \"AA\" }} }}", assign), "bp" => format!("mutate {{ J {{ s: \"t\" jp: \"0\" bp: {} }} }}", assign), f => base(&format!("{}: {}", f, assign)) };
+        let rid = match mutate(w, &create, wp) { Ok(r) => r, Err(e) => return (if e.starts_with("parse") { 1 } else { 2 }, None, 0, e, vec![]) };
+        let after = snapshot(w);
+        let ok = after.len() == before.len() + 1 && before.iter().zip(after.iter()).all(|(b, a)| b == a);
+        status = 0; id = rid; frame = ok as i64; note = String::new();
+    }
+    let mut p = Parameters::new(); p.add("id", uid_encode(&id)).unwrap();
+    let back = match jquery(w, &format!("query {{ J (id = $id) {{ {} o }} }}", field), p) {
+        Ok(v) => { let row = v.get("J").and_then(|a| a.get(0)).cloned().unwrap_or(json!(null)); if row.get("o") != Some(&json!(7)) { return (status, row.get(field).cloned(), 0, "neighbour changed".into(), id.to_vec()); } row.get(field).cloned() }
+        Err(e) => return (3, None, frame, e, id.to_vec()),
+    };
+    (status, back, frame, note, id.to_vec())
+}
+
+fn json_case(out: &mut Buf, w: &World, rng: &mut Rng, how: How, upd: bool, field: &str, prev: Option<Jv>, v: &Jv, kind: &str) {
+    let text = v.text(rng);
+    let nullable_field = field == "j";
+    let (assign, wp) = match (&how, v) {
+        (How::Literal, Jv::Null) => ("null".to_string(), Parameters::new()),
+        (How::Literal, _) => (format!("\"{}\"", json_esc(&text)), Parameters::new()),
+        (How::Param, Jv::Null) => { let mut p = Parameters::new(); p.add_null("v").unwrap(); ("$v".to_string(), p) }
+        (How::Param, _) => { let mut p = Parameters::new(); p.add("v", text.clone()).unwrap(); ("$v".to_string(), p) }
+    };
+    let init = prev.as_ref().map(|p| format!("\"{}\"", json_esc(&p.text(rng))));
+    let (status, back, frame, note, id) = field_case(w, rng, field, upd, init, assign, wp);
+    let mut obs = vec![status];
+    let mut by_param = -1;
+    if status == 0 {
+        match &back { Some(b) => enc_serde(b, &mut obs), None => obs.push(-1) }
+        // equality filter with the canonical text as parameter
+        let mut p = Parameters::new(); p.add("id", discret::verif_hooks::security::base64_encode(&id)).unwrap();
+        if *v == Jv::Null { p.add_null("p").unwrap(); } else { p.add("p", v.canon_text()).unwrap(); }
+        by_param = match v {
+            Jv::Obj(_) | Jv::Arr(_) => match jquery(w, &format!("query {{ J (id = $id, {} = $p) {{ id }} }}", field), p) { Ok(r) => r.get("J").and_then(|a| a.as_array()).map(|a| a.len() as i64).unwrap_or(-1), Err(_) => -2 },
+            _ => 2,   // scalar JSON values: the filter compares the extracted SQL value, not exercised
+        };
+        obs.push(by_param); obs.push(frame);
+    }
+    // prev for the model: absent fields are None (a default field holds its default when not given)
+    let prev_model = match (&prev, field) { (Some(p), _) => Some(p.clone()), (None, "jd") if upd => Some(Jv::Obj(vec![("d".into(), Jv::Arr(vec![Jv::Int(1)]))])), (None, "jp") if upd => Some(Jv::Int(0)), _ => None };
+    out.push(Case { kind: kind.into(), coq: format!("CJson {} {} {} {} {}", how.coq(), gb(upd), gb(nullable_field), gopt(&prev_model.map(|p| p.coq())), v.coq()), obs,
+        meta: json!({"field": field, "update": upd, "assigned_text": text, "previous": prev.map(|p| p.canon_text()), "read_back": back, "by_param": by_param, "frame": frame, "note": note}) });
+}
+
+fn b64_case(out: &mut Buf, w: &World, rng: &mut Rng, how: How, upd: bool, field: &str, text: &str, kind: &str) {
+    let (assign, wp) = match how { How::Literal => (format!("\"{}\"", text), Parameters::new()), How::Param => { let mut p = Parameters::new(); p.add("v", text.to_string()).unwrap(); ("$v".to_string(), p) } };
+    let init = if upd && rng.chance(1, 2) { Some("\"QUJD\"".to_string()) } else { None };
+    let (status, back, frame, note, id) = field_case(w, rng, field, upd, init, assign, wp);
+    let mut obs = vec![status];
+    if status == 0 {
+        match &back { Some(serde_json::Value::String(s)) => enc_str(s, &mut obs), _ => obs.push(-1) }
+        let idp = discret::verif_hooks::security::base64_encode(&id);
+        let mut p = Parameters::new(); p.add("id", idp.clone()).unwrap(); p.add("p", text.to_string()).unwrap();
+        let cnt = |r: Result<serde_json::Value, String>| r.map(|v| v.get("J").and_then(|a| a.as_array()).map(|a| a.len() as i64).unwrap_or(-1)).unwrap_or(-2);
+        obs.push(cnt(jquery(w, &format!("query {{ J (id = $id, {} = $p) {{ id }} }}", field), p)));
+        let mut p = Parameters::new(); p.add("id", idp).unwrap();
+        obs.push(cnt(jquery(w, &format!("query {{ J (id = $id, {} = \"{}\") {{ id }} }}", field, text), p)));
+        obs.push(frame);
+    }
+    out.push(Case { kind: kind.into(), coq: format!("CB64 {} {} {}", how.coq(), gb(upd), gstr(text)), obs, meta: json!({"field": field, "update": upd, "text": text, "read_back": back, "note": note}) });
+}
+
+fn json_b64_cases(out: &mut Buf, rng: &mut Rng) {
+    let w = new_jworld();
+    let o = |l: Vec<(&str, Jv)>| Jv::Obj(l.into_iter().map(|(k, v)| (k.to_string(), v)).collect());
+    // directed: what a merge instead of a replacement would get wrong
+    let prev = o(vec![("a", Jv::Int(1)), ("b", o(vec![("x", Jv::Int(1)), ("y", Jv::Int(2))])), ("c", Jv::Arr(vec![Jv::Int(1), Jv::Int(2)]))]);
+    json_case(out, &w, rng, How::Param, true, "j", Some(prev.clone()), &o(vec![("a", Jv::Int(2))]), "directed-json-object-over-object");
+    json_case(out, &w, rng, How::Literal, true, "j", Some(prev.clone()), &o(vec![("b", o(vec![("x", Jv::Null)]))]), "directed-json-null-member");
+    json_case(out, &w, rng, How::Param, true, "jp", Some(prev.clone()), &o(vec![]), "directed-json-empty-object-over-object");
+    json_case(out, &w, rng, How::Param, true, "j", Some(prev.clone()), &Jv::Arr(vec![o(vec![("a", Jv::Null)])]), "directed-json-array-over-object");
+    json_case(out, &w, rng, How::Literal, true, "j", Some(prev.clone()), &Jv::Null, "directed-json-null-over-object");
+    json_case(out, &w, rng, How::Param, true, "jd", None, &o(vec![("e", Jv::Int(1))]), "directed-json-over-default");
+    json_case(out, &w, rng, How::Param, false, "jp", None, &Jv::Null, "directed-json-null-refused");
+    for _ in 0..scale(260, 4000) {
+        let v = gen_jv(rng, 0);
+        let field = *rng.pick(&["j", "j", "jp", "jd"]);
+        let v = if v == Jv::Null && field != "j" { Jv::Int(0) } else { v };
+        let upd = rng.chance(2, 3);
+        let prev = if upd && rng.chance(3, 4) { Some(gen_prev(rng, &v)) } else { None };
+        let prev = match prev { Some(Jv::Null) if field != "j" => Some(Jv::Int(1)), p => p };
+        let how = if rng.chance(1, 2) { How::Param } else { How::Literal };
+        json_case(out, &w, rng, how, upd, field, prev, &v, if upd { "json-update" } else { "json-create" });
+    }
+    // base64
+    let long: String = (0..400).map(|i| "ABCDEFGHIJKLMNOPQRSTUVWXYZabcdefghijklmnopqrstuvwxyz0123456789-_".chars().nth((i * 7) % 64).unwrap()).collect();
+    let mut texts: Vec<String> = ["", "AA", "AB", "A", "AA==", "AAE", "AAF", "-_8", "+/8", "QUJD", "QUJ DRA", "AAEC", "____", "AAA", "AQ", "AQ=", "QQ", "QR"].iter().map(|s| s.to_string()).collect();
+    texts.push(long);
+    for _ in 0..scale(60, 600) {
+        let n = rng.below(12) as usize;
+        let t: String = (0..n).map(|_| "ABCDEFGHIJKLMNOPQRSTUVWXYZabcdefghijklmnopqrstuvwxyz0123456789-_".chars().nth(rng.below(64) as usize).unwrap()).collect();
+        texts.push(t);
+    }
+    for t in texts {
+        for how in [How::Param, How::Literal] {
+            let upd = rng.chance(1, 2);
+            let field = *rng.pick(&["b", "bp", "bd"]);
+            b64_case(out, &w, rng, how, upd, field, &t, "base64");
+        }
+    }
+}
+
+// ---------------------------------------------------------------- aliases and search terms
+fn skeleton2(s: &str) -> String {
+    let cs: Vec<char> = s.chars().collect();
+    let mut out = String::new();
+    let mut inside: Option<char> = None;
+    let mut i = 0;
+    while i < cs.len() {
+        let c = cs[i];
+        match inside {
+            None => { out.push(c); if c == '\'' || c == '"' { inside = Some(c); } }
+            Some(q) => if c == q { if i + 1 < cs.len() && cs[i + 1] == q { i += 1; } else { out.push(c); inside = None; } }
+        }
+        i += 1;
+    }
+    out
+}
+fn alias_search_cases(out: &mut Buf, rng: &mut Rng) {
+    let m = SModel { fields: vec![
+        SField { name: "name", ty: "String", coq_ty: "TStr", nullable: false, default: None },
+        SField { name: "n", ty: "Integer", coq_ty: "TInt", nullable: false, default: Some("3".into()) } ] };
+    let mut dm = DataModel::new();
+    dm.update(&m.text()).unwrap();
+    let conn = Connection::open_in_memory().unwrap();
+    prepare_connection(&conn).unwrap();
+    let w = World { dm, conn, s_short: String::new() };
+    for t in ["mutate { S { name: \"hello world\" n: 1 } }", "mutate { S { name: \"abcdef\" } }", "mutate { S { name: \"AND\" n: 5 } }"] { mutate(&w, t, Parameters::new()).unwrap(); }
+    // identifiers: every ASCII character inside an alias, SQL keywords, digits first, the listed non-ASCII characters
+    let mut aliases: Vec<String> = (0u8..128).map(|c| format!("a{}b", c as char)).collect();
+    for c in 0u8..128 { aliases.push((c as char).to_string()); }
+    for a in ["order", "select", "group", "where", "1abc", "123", "_x", "x_", "é", "ß中", "Ω١", "a\"b", "a'b", "a b", "a;b", "a--b", "a)b", "", "table", "from", "null", "true", "value", "_json", "rowid"] { aliases.push(a.to_string()); }
+    for _ in 0..scale(40, 400) { let n = 1 + rng.below(5) as usize; aliases.push((0..n).map(|_| *rng.pick(&['a', 'Z', '0', '9', '_', 'é', 'ß', '中', 'Ω', '١', 'q'])).collect()); }
+    let mk = |al: &str| -> (String, String) {
+        // q: the alias for the entity and for a field, with a filter and an order on the aliased field
+        (format!("query {{ {}: S (order_by({} asc)) {{ {}: n name }} }}", al, al, al),
+         format!("(Build_query (Some {}) [Build_selfield 1 (Some {}); Build_selfield 0 None] [] [Build_okey (FByAlias 0) Asc] (OLit (VInt 0)) None PNone)", gstr(al), gstr(al)))
+    };
+    let (ntext, ncoq) = mk("x1");
+    let nsql = real_sql(&w.dm, &ntext).unwrap();
+    let nres: serde_json::Value = serde_json::from_str(&query(&w, &w.dm, &ntext, Parameters::new()).unwrap()).unwrap();
+    for a in aliases {
+        if a == "name" || a == "n" || a == "S" { continue; }
+        let (text, coq) = mk(&a);
+        let obs = match real_sql(&w.dm, &text) {
+            Err(_) => vec![0],
+            Ok(sql) => {
+                let sk = (skeleton2(&sql) == skeleton2(&nsql)) as i64;
+                match query(&w, &w.dm, &text, Parameters::new()) {
+                    Ok(r) => {
+                        // same rows, the alias where the neutral alias stood
+                        let v: serde_json::Value = serde_json::from_str(&r).unwrap_or(json!(null));
+                        let rows: Vec<serde_json::Value> = v.get(&a).and_then(|x| x.as_array()).cloned().unwrap_or_default().iter().map(|o| json!({"x1": o.get(&a), "name": o.get("name")})).collect();
+                        vec![1, sk, 1, (json!({"x1": rows}) == nres) as i64]
+                    }
+                    Err(_) => vec![1, sk, 0, 0],
+                }
+            }
+        };
+        out.push(Case { kind: "alias".into(), coq: format!("CAlias {} {} {} {}", gstr(&a), m.coq(&w.dm), coq, ncoq), obs, meta: json!({"alias": a, "query": text}) });
+    }
+    // search terms: the statement does not depend on the term
+    let neutral_lit = real_sql(&w.dm, "query { S (search(\"abc\")) { name } }").unwrap();
+    let neutral_var = real_sql(&w.dm, "query { S (search($t)) { name } }").unwrap();
+    let mut terms: Vec<String> = ["hello", "hello world", "wor", "a", "", "\"", "hello\"", "\"hello world\"", "hello AND world", "AND", "OR", "NOT hello", "NEAR(hello world)", "hel*", "name:hello", "^hello", "hello OR", "(hello", "hello)", "'; DROP TABLE _node; --", "a-b", "a+b", "é中", "hello, world", "col : x", "{a b}: x", "-hello"].iter().map(|s| s.to_string()).collect();
+    for _ in 0..scale(60, 600) { terms.push(gen_string(rng).chars().filter(|c| *c != '\\' && *c != '\n' && *c != '\r' && *c != '\0').take(10).collect()); }
+    for t in terms {
+        let lit_sql = real_sql(&w.dm, &format!("query {{ S (search(\"{}\")) {{ name }} }}", t.replace('"', "\\\"")));
+        let same = match &lit_sql { Ok(s) => (*s == neutral_lit) as i64, Err(_) => -1 };
+        let mut p = Parameters::new(); p.add("t", t.clone()).unwrap();
+        let (acc, note) = match query(&w, &w.dm, "query { S (search($t)) { name } }", p) { Ok(_) => (1, String::new()), Err(e) => (0, e.lines().next().unwrap_or("").to_string()) };
+        let acc_lit = query(&w, &w.dm, &format!("query {{ S (search(\"{}\")) {{ name }} }}", t.replace('"', "\\\"")), Parameters::new()).is_ok() as i64;
+        let same = if same == 1 && real_sql(&w.dm, "query { S (search($t)) { name } }").map(|s| s == neutral_var).unwrap_or(false) && acc == acc_lit { 1 } else { 0 };
+        out.push(Case { kind: "search".into(), coq: format!("CSearch {} {}", gstr(&t), gb(acc == 1)), obs: vec![same, acc], meta: json!({"term": t, "fts5": note}) });
+    }
+}
+
 fn main() {
     let mut rng = Rng::from_env();
     let mut real_out = Out::create();
@@ -484,6 +786,8 @@ fn main() {
     }
     for b in [true, false] { bool_case(&mut out, &w, How::Param, b); bool_case(&mut out, &w, How::Literal, b); }
     let _ = &w.s_short;
+    json_b64_cases(&mut out, &mut rng);
+    alias_search_cases(&mut out, &mut rng);
     statements(&mut out, &mut rng);
     eprintln!("c04: {} cases", out.n);
     let mut kinds: std::collections::BTreeMap<String, (usize, usize, usize)> = Default::default();   // kind -> (cases, write refused, frame violated)
